@@ -13,6 +13,18 @@ Theorem C13_failed_iff_marker : forall input f result,
 Proof. exact failed_iff_marker. Qed.
 Print Assumptions C13_failed_iff_marker.
 
+(* markers are literal text, not patterns (witnesses with regular-expression metacharacters) *)
+Theorem C13_failed_marker_literal :
+  (forall f result, flag_of f result = contains_any (markers_of f) result) /\
+  flag_of (FStr [97;46;99]) [120;97;46;99;120] = true /\ flag_of (FStr [97;46;99]) [97;98;99] = false /\
+  flag_of (FStr [40]) [102;40;120;41] = true /\ flag_of (FStr [40]) [102;120] = false /\
+  flag_of (FList [[69;124;82]]) [120;69;124;82;121] = true /\ flag_of (FList [[69;124;82]]) [69] = false /\
+  flag_of (FList [[97;42]; [40]]) [97;42;98] = true /\ flag_of (FList [[97;42]; [40]]) [97;97;97] = false /\
+  flag_of (FStr ios_invalid) ([32;32;94;10] ++ ios_invalid ++ [10;120]) = true /\
+  flag_of (FStr ios_invalid) [37;32;73;110;118;97;108;105;100;32;105;110;112;117;116] = false.
+Proof. exact (conj flag_of_literal failed_iff_marker_metachar). Qed.
+Print Assumptions C13_failed_marker_literal.
+
 Theorem C13_multi_failed_iff_any : forall rs,
   multi_failed rs = true <-> exists r, In r rs /\ r_failed r = true.
 Proof. exact multi_failed_iff_any. Qed.
